@@ -31,7 +31,9 @@ SEEDS = ["A: B#; B: 'b';", "A[ws]: 'a';", "A: A;", "A: B; B: A;", "A: /(/;", 'A:
          "A[split=3]: 'a';", "A: a+=[A:ID|];", "Comment: A; A: 'a';", "A: B; B: C; C: A | 'x';", "A: a=A;", "A: !A 'a';",
          "A: ;", ";", "A", "A:", "A: 'a'", "A: 'a';; ", "A: [A];", "A: a=[A] a=INT;", "ID: 'a';", "A: 'a'; A: 'b';",
          "A: x=B; B: x=A | 'e';", "A: 'a'#;", "A: /a/#;", "A: (B)#; B: 'b';", "A: B+#; B: 'b';"]
-RULE = ("(a) generated valid grammars printed to text with 0-4 token mutations (drop/duplicate/swap/replace-from-pool/insert), "
+RULE = ("(0) one-rule grammars whose regular expression is assembled from a pool of regex pieces with quantifiers up to 2**70, "
+        "and alias graphs (2-6 rules that are plain references to each other, so that cycles are entered through other aliases), "
+        "(a) generated valid grammars printed to text with 0-4 token mutations (drop/duplicate/swap/replace-from-pool/insert), "
         "(b) hand-written seed texts with 0-2 such mutations; non-trivial: the text passes the grammar's syntax (it is accepted "
         "or the error is semantic) or fails beyond the first rule; distinct by canonical JSON")
 ASSUMPTIONS = [
@@ -46,8 +48,57 @@ DESIGN_REF = "DESIGN.md section 4 C23"
 TOKEN = re.compile(r"""'(?:\\.|[^'])*'|"(?:\\.|[^"])*"|/(?:\\/|[^/\n])+/|\w+|\+=|\*=|\?=|->|\S""")
 
 
+RE_ATOMS = ["a", "b", "\\d", "\\w", ".", "[a-z]", "[z-a]", "[^\\]]", "(", ")", "(?:", "(?P<n>", "(?P=n)", "(?=", "(?!", "(?<=", "(?<!", "|",
+            "\\1", "\\2", "(?i)", "(?i:", "(?(1)a|b)", "\\N{DIGIT ONE}", "\\N{nope}", "\\x4", "\\u12", "\\/", "\\\\", "^", "$", "\\b",
+            "\\Z", "\\z", "[[:alpha:]]", "(?#c)", "(?P<1>", "(?P<n", "[", "\\"]
+
+
+@st.composite
+def regex_bodies(draw):
+    parts = []
+    for _ in range(draw(st.integers(1, 6))):
+        parts.append(draw(st.sampled_from(RE_ATOMS)))
+        q = draw(st.integers(0, 9))
+        if q < 2:
+            parts.append(draw(st.sampled_from(["*", "+", "?", "*?", "*+", "**", "+*"])))
+        elif q < 5:
+            lo = draw(st.integers(0, 2 ** 70))
+            hi = draw(st.one_of(st.none(), st.integers(0, 2 ** 70)))
+            parts.append("{%d}" % lo if hi is None else "{%d,%d}" % (lo, hi))
+    body = "".join(parts)
+    return body if body and not body.startswith("*") and "\n" not in body else "a" + body
+
+
+@st.composite
+def alias_graphs(draw):
+    """rules that are plain references to other rules (aliases), with cycles reachable only through other aliases"""
+    n = draw(st.integers(2, 6))
+    rules = []
+    for i in range(n):
+        kind = draw(st.integers(0, 9))
+        j = draw(st.integers(0, n - 1))
+        k = draw(st.integers(0, n - 1))
+        if kind < 6:
+            body = f"R{j}"
+        elif kind < 7:
+            body = f"R{j} | R{k}"
+        elif kind < 8:
+            body = f"x+=R{j}"
+        elif kind < 9:
+            body = f"(R{j})"
+        else:
+            body = "'t'"
+        rules.append(f"R{i}: {body};")
+    return " ".join(rules)
+
+
 @st.composite
 def cases(draw):
+    kind = draw(st.integers(0, 19))
+    if kind < 3:
+        return {"base": "A: /" + draw(regex_bodies()) + "/;", "muts": []}
+    if kind < 6:
+        return {"base": draw(alias_graphs()), "muts": []}
     if draw(st.integers(0, 9)) < 7:
         base = G.to_text(draw(G.grammars(max_rules=4)))
         nm = draw(st.integers(0, 4))
@@ -63,6 +114,8 @@ def strategy(tier):
 
 
 def mutate(base, muts):
+    if not muts:
+        return base
     toks = TOKEN.findall(base)
     for op, idx, tok in muts:
         if not toks:
